@@ -92,6 +92,7 @@ def spec_strategy(draw, families=("LAN", "ROUTED", "DMZ"), allow_off=True, max_h
             "thresholds": draw(st.booleans()),
         },
         "acl_deny": draw(st.booleans()),
+        "amap_order": draw(st.sampled_from([0, 0, 1, 7, 12345])),
         "defaults": draw(st.sampled_from([None, None, {"folder_scan_duration": 1, "folder_restore_duration": 1,
                                                         "node_scan_duration": 2, "service_fix_duration": 1,
                                                         "service_restart_duration": 1}])),
@@ -378,7 +379,11 @@ def build_actions(hosts, routers, firewalls, switches, spec) -> List[Dict]:
     add("node-folder-scan", "missing", node_name=h0, folder_name="nofolder")
     add("node-application-install", "app", node_name=h0, application_name="dos-bot")
     add("node-application-remove", "app", node_name=h0, application_name="dos-bot")
-    add("node-application-execute", "app", node_name=h0, application_name="dos-bot")
+    for v in ("execute", "close", "scan", "fix"):
+        add(f"node-application-{v}", "app", node_name=h0, application_name="dos-bot")
+    add("node-application-install", "app", node_name=h0, application_name="ransomware-script")
+    for v in ("execute", "close", "scan"):
+        add(f"node-application-{v}", "app", node_name=h0, application_name="ransomware-script")
     return A
 
 
@@ -438,6 +443,16 @@ def build_agents(spec, hosts, actions, obs) -> List[Dict]:
     ag = spec["agents"]
     agents: List[Dict] = []
     amap = {i: {"action": a["action"], "options": a["options"]} for i, a in enumerate(actions)}
+    order = spec.get("amap_order")
+    if order:
+        # the same mapping written with its keys in another order (a mapping's key order carries no meaning)
+        keys = list(amap)
+        x = int(order)
+        for i in range(len(keys) - 1, 0, -1):
+            x = (x * 1103515245 + 12345) & 0x7FFFFFFF
+            j = x % (i + 1)
+            keys[i], keys[j] = keys[j], keys[i]
+        amap = {k: amap[k] for k in keys}
     blue = {
         "ref": "defender", "team": "BLUE", "type": "proxy-agent",
         "observation_space": obs,
